@@ -93,6 +93,49 @@ Definition c20_run_cfg (a : list Z) : list Z :=
   | _ => []
   end.
 
+(* c20_run_ann: [n; K; P; s0; ntests; NL; cc; step tables of the loop bounds 0..NL-1 (NL * n*K, -1 = none); sid table (n);
+                 per test: is_invariant; annotated loop bound (-1 = none); annotated depth (-1 = none);
+                           budget (-1 = none); body table (n*P, -1 = none)]
+   A config is loop * 16 + invariant_depth (cc: the contract's).  The annotation of a test overrides the components it
+   names; which base it is applied to (Model.next_base) and which config explores the frontier (Model.frontier_cfg)
+   are what the code does.  -> per test: [npaths; codes...] *)
+Definition cfg_loop (e : Z) : Z := e / 16.
+Definition cfg_depth (e : Z) : Z := e mod 16.
+
+Fixpoint decode_atests (nt : nat) (n P : nat) (l : list Z) : list atest :=
+  match nt with
+  | O => []
+  | S nt' =>
+      match l with
+      | inv :: al :: ad :: b :: rest =>
+          let tbl := firstn (n * P) rest in
+          mkATest (fun base => (if al <? 0 then cfg_loop base else al) * 16 + (if ad <? 0 then cfg_depth base else ad))
+                  (fun e => if inv =? 0 then O else Z.to_nat (cfg_depth e))
+                  (fun _ s => if s <? natZ n then row tbl P s else [])
+                  (if b <? 0 then None else Some (Z.to_nat b))
+          :: decode_atests nt' n P (skipn (n * P) rest)
+      | _ => []
+      end
+  end.
+
+Definition c20_run_ann (a : list Z) : list Z :=
+  match a with
+  | n :: K :: P :: s0 :: nt :: NL :: cc :: rest =>
+      let n' := Z.to_nat n in let K' := Z.to_nat K in let P' := Z.to_nat P in
+      let sz := (n' * K')%nat in
+      let steps := firstn (Z.to_nat NL * sz) rest in
+      let rest1 := skipn (Z.to_nat NL * sz) rest in
+      let sids := firstn n' rest1 in
+      let rest2 := skipn n' rest1 in
+      let cstep := fun e s => let l := cfg_loop e in
+                              if (0 <=? l) && (l <? NL) && (s <? n)
+                              then row (chunk steps (Z.to_nat l * sz) sz) K' s else [] in
+      let sd := fun s => if (0 <=? s) && (s <? n) then nth (Z.to_nat s) sids s else s in
+      let ts := decode_atests (Z.to_nat nt) n' P' rest2 in
+      flat_map (fun p => natZ (List.length p) :: p) (run_contract_a next_base frontier_cfg cstep sd cc s0 ts)
+  | _ => []
+  end.
+
 (* nested singleton containers: depth n, key 0 -> child, key 1 -> 5 *)
 Fixpoint chain (n : nat) (h : heap) : heap * val :=
   match n with
@@ -153,6 +196,7 @@ Definition table : list (string * (list Z -> list Z)) :=
   [ ("c20_run"%string, c20_run);
     ("c20_spec"%string, c20_spec);
     ("c20_run_cfg"%string, c20_run_cfg);
+    ("c20_run_ann"%string, c20_run_ann);
     ("c20_visible"%string, c20_visible);
     ("c20_depths"%string, c20_depths) ].
 
